@@ -10,6 +10,33 @@ Arguments Z.div : simpl never. Arguments Z.modulo : simpl never. Arguments Z.ltb
 Arguments Z.leb : simpl never. Arguments Z.eqb : simpl never. Arguments Z.min : simpl never.
 Arguments Z.max : simpl never. Arguments Z.quot : simpl never.
 
+(* [lia] looks at every hypothesis; in the big contexts below most of them are about views and lists: drop them first *)
+Ltac thin :=
+  repeat match goal with
+  | H : ?T |- _ =>
+      lazymatch type of T with Prop => idtac | _ => fail end;
+      lazymatch T with
+      | _ <= _ => fail | _ < _ => fail | _ >= _ => fail | _ > _ => fail
+      | _ /\ _ => fail | _ \/ _ => fail
+      | @eq Z _ _ => fail | @eq nat _ _ => fail | not (@eq Z _ _) => fail
+      | _ => clear H
+      end
+  end.
+Ltac thin2 :=
+  repeat match goal with
+  | H : ?T |- _ =>
+      lazymatch type of T with Prop => idtac | _ => fail end;
+      lazymatch T with
+      | _ <= _ => fail | _ < _ => fail | _ >= _ => fail | _ > _ => fail
+      | _ /\ _ => fail | _ \/ _ => fail
+      | @eq Z _ _ => fail | @eq nat _ _ => fail | not (@eq Z _ _) => fail
+      | @eq bool _ _ => fail
+      | _ => clear H
+      end
+  end.
+Ltac qlia := first [ solve [thin; lia] | solve [thin2; lia] | lia ].
+
+
 (* same tree shape, same focus in every Columns (leaf cursors and Pile focus may differ) *)
 Fixpoint cols_same (w w' : widget) {struct w} : bool :=
   match w, w' with
@@ -62,7 +89,7 @@ Lemma leaf_accepts_inv l s row :
   leaf_accepts l s row = true -> lsel l = true /\ 0 <= row < leaf_nrows l s.
 Proof.
   unfold leaf_accepts. intro H. apply andb_true_iff in H as [H _]. apply andb_true_iff in H as [H H3].
-  apply andb_true_iff in H as [H1 H2]. split; [exact H1|lia].
+  apply andb_true_iff in H as [H1 H2]. split; [exact H1|qlia].
 Qed.
 
 Lemma move_ok_leaf l : MoveOK (Leaf l).
@@ -77,13 +104,13 @@ Proof.
   { unfold leaf_fits in *. cbn [leaf_moved lminw lbox lcur lsel lapi lfw].
     assert (En : leaf_nrows (leaf_moved l s col row) s = leaf_nrows l s) by reflexivity. rewrite En.
     apply andb_true_iff in Hf as [Hf _]. rewrite Hf. cbn [andb]. rewrite Hsel, Hm. cbn [andb].
-    destruct (lbox l); cbn [orb]; lia. }
+    destruct (lbox l); cbn [orb]; qlia. }
   split; [reflexivity|]. split; [exact Hfit'|]. intros _. split; [exact Hsel|].
   rewrite (leaf_crows l s Hf). split; [exact Hrow|].
   unfold leaf_cursor. cbn [leaf_moved lcur lbox]. unfold leaf_nrows in Hrow.
   destruct (lbox l); [|eexists; reflexivity].
   destruct (snd s) as [r|]; [|eexists; reflexivity].
-  replace (Z.min row (r - 1)) with row by lia. eexists; reflexivity.
+  replace (Z.min row (r - 1)) with row by qlia. eexists; reflexivity.
 Qed.
 
 (* ---- replacing one child view ---- *)
@@ -92,10 +119,10 @@ Fixpoint set_nth_v (l : list wview) (i : Z) (v : wview) : list wview :=
 
 Lemma nth_view_set_same d l i v : 0 <= i < zlen l -> nth_view d (set_nth_v l i v) i = v.
 Proof.
-  revert i. induction l as [|a l IH]; intros i H; [unfold zlen in H; cbn in H; lia|].
+  revert i. induction l as [|a l IH]; intros i H; [unfold zlen in H; cbn in H; qlia|].
   cbn [set_nth_v]. unfold nth_view in *. destruct (i =? 0) eqn:E.
   - rewrite nthz_cons, E. reflexivity.
-  - rewrite nthz_cons, E. assert (E2 : i <? 0 = false) by lia. rewrite E2. rewrite zlen_cons in H. apply IH. lia.
+  - rewrite nthz_cons, E. assert (E2 : i <? 0 = false) by qlia. rewrite E2. rewrite zlen_cons in H. apply IH. qlia.
 Qed.
 
 Lemma nth_view_set_other_fits d d' l i j v : j <> i ->
@@ -104,9 +131,9 @@ Proof.
   revert i j. induction l as [|a l IH]; intros i j H.
   - unfold nth_view. cbn [set_nth_v]. rewrite !nthz_nil. reflexivity.
   - cbn [set_nth_v]. unfold nth_view in *. destruct (i =? 0) eqn:E.
-    + rewrite !nthz_cons. assert (E2 : j =? 0 = false) by lia. rewrite E2.
+    + rewrite !nthz_cons. assert (E2 : j =? 0 = false) by qlia. rewrite E2.
       destruct (if j <? 0 then None else nthz l (j - 1)); reflexivity.
-    + rewrite !nthz_cons. destruct (j =? 0); [reflexivity|]. destruct (j <? 0); [reflexivity|]. apply IH. lia.
+    + rewrite !nthz_cons. destruct (j =? 0); [reflexivity|]. destruct (j <? 0); [reflexivity|]. apply IH. qlia.
 Qed.
 
 Lemma map_info_set l i v d :
@@ -115,7 +142,7 @@ Proof.
   revert i. induction l as [|a l IH]; intros i H E; [reflexivity|]. cbn [set_nth_v].
   unfold nth_view in E. rewrite nthz_cons in E. destruct (i =? 0) eqn:E0.
   - cbn [map]. rewrite E. reflexivity.
-  - assert (E2 : i <? 0 = false) by lia. rewrite E2 in E. cbn [map]. f_equal. rewrite zlen_cons in H. apply IH; [lia|exact E].
+  - assert (E2 : i <? 0 = false) by qlia. rewrite E2 in E. cbn [map]. f_equal. rewrite zlen_cons in H. apply IH; [qlia|exact E].
 Qed.
 
 (* ---- the generic step: the node afterwards reports the cursor on the requested row ---- *)
@@ -134,12 +161,12 @@ Proof.
   cbn [interp v_cursor]. unfold interp_cursor. cbv zeta in Hplan.
   rewrite <- (nth_view_info d) in Hplan. rewrite Hpi, Hps in Hplan.
   destruct (n_cursor nd s) as [|e|i0 cs0 dx dy clamp nr].
-  - destruct Hplan as [H|[H|H]]; [congruence|congruence|lia].
+  - destruct Hplan as [H|[H|H]]; [congruence|congruence|qlia].
   - contradiction.
   - destruct Hplan as [-> [-> [-> [-> [-> Hclamp]]]]]. rewrite Hc.
     destruct clamp as [m|].
-    + assert (E : m <=? r' = false) by lia. rewrite E. eexists. f_equal. lia.
-    + eexists. f_equal. lia.
+    + assert (E : m <=? r' = false) by qlia. rewrite E. eexists. f_equal. qlia.
+    + eexists. f_equal. qlia.
 Qed.
 
 Lemma interp_fits_after d d' nd nd' kids i kid' s :
@@ -152,13 +179,13 @@ Lemma interp_fits_after d d' nd nd' kids i kid' s :
 Proof.
   intros Hf Hn' Hpl Hk Hi. destruct (interp_fits_inv d nd kids s Hf) as [[Hc Hr] [Hn Hkids]].
   cbn [interp v_fits]. unfold interp_fits.
-  assert (E1 : 1 <=? fst s = true) by lia. rewrite E1, Hn'.
+  assert (E1 : 1 <=? fst s = true) by qlia. rewrite E1, Hn'.
   assert (E2 : match snd s with Some r => 1 <=? r | None => true end = true).
-  { destruct (snd s) as [r|]; [specialize (Hr r eq_refl); lia|reflexivity]. }
+  { destruct (snd s) as [r|]; [specialize (Hr r eq_refl); qlia|reflexivity]. }
   rewrite E2. cbn [andb]. apply forallb_forall. intros q Hq.
   destruct (Hpl q Hq) as [q0 [Hq0 [Ei Es]]].
   destruct (Z.eq_dec (p_idx q) i) as [E|E].
-  - rewrite E, nth_view_set_same by exact Hi. rewrite <- Es. apply Hk; [exact Hq0|lia].
+  - rewrite E, nth_view_set_same by exact Hi. rewrite <- Es. apply Hk; [exact Hq0|qlia].
   - rewrite (nth_view_set_other_fits d d' kids i (p_idx q) kid' E). rewrite <- Ei, <- Es. apply Hkids. exact Hq0.
 Qed.
 
@@ -174,7 +201,7 @@ Definition LocalMoveTarget (nd : node) (infos : list cinfo) : Prop :=
 
 Ltac one_target p0 :=
   exists p0; split; [left; reflexivity|]; cbn [p_idx p_size p_y p_isfocus];
-  repeat split; try reflexivity; try lia; try (intros q [<-|[]] _; reflexivity).
+  repeat split; try reflexivity; try qlia; try (intros q [<-|[]] _; reflexivity).
 
 Section SingleTargets.
   Variable ki : list cinfo.
@@ -205,8 +232,8 @@ Section SingleTargets.
     destruct (i_hasmove (nth_info ki 0)) eqn:Eh; cbn [negb] in E; [|discriminate].
     destruct (padding_values o (fst s)) as [l r]. inversion E; subst. split; [exact Eh|]. split; [left; reflexivity|].
     exists (Placed 0 l 0 (fst s - (l + r), snd s) true false). split; [left; reflexivity|]. cbn [p_idx p_size p_y p_isfocus].
-    repeat split; try reflexivity; try lia.
-    - f_equal. lia.
+    repeat split; try reflexivity; try qlia.
+    - f_equal. qlia.
     - intros q [<-|[]] _; reflexivity.
   Qed.
 
@@ -273,13 +300,13 @@ Section SingleChild.
         apply (interp_fits_after (K c) (K c2) _ _ [view c] 0 (view c2) s Hf Hn).
         * intros q Hq. exists q. auto.
         * intros q Hq Hqi. rewrite (Hfun q Hq Hqi), Hps. exact Hfit'.
-        * unfold zlen. cbn. lia.
+        * unfold zlen. cbn. qlia.
       + intro Hne. destruct (Hasked Hne) as [Hsel [Hrow [x Hcur]]].
         rewrite K_sel. change (nth_info [v_info (view c)] 0) with (v_info (view c)).
         split; [exact Hsel|].
         destruct (K_within c _ s p Hn Hpos Hp) as [_ [_ [Hy0 Hy1]]].
         rewrite Hpi, Hps in Hy1. change (nth_info [v_info (view c)] 0) with (v_info (view c)) in Hy1.
-        split; [lia|].
+        split; [qlia|].
         apply (interp_cursor_after (K c2) _ [view c2] s 0 cs x r' row).
         * pose proof (K_cursor c [v_info (view c)]) as LC. cbn [map]. rewrite Hinfo. exact LC.
         * exact Hn.
@@ -289,7 +316,7 @@ Section SingleChild.
         * change (nth_view (K c2) [view c2] 0) with (view c2). rewrite Hinfo. exact Hsel.
         * change (nth_view (K c2) [view c2] 0) with (view c2). apply hasmove_hascur. unfold info. rewrite Hinfo. exact Hcm.
         * destruct (view_good c2) as [FP _]. destruct (FP cs Hfit') as [H1 _]. exact H1.
-        * change (nth_view (K c2) [view c2] 0) with (view c2). rewrite Hinfo. lia.
+        * change (nth_view (K c2) [view c2] 0) with (view c2). rewrite Hinfo. qlia.
   Qed.
 End SingleChild.
 
@@ -389,9 +416,9 @@ Lemma interp_fits_renode d d' nd nd' kids s :
 Proof.
   intros Hf Hn' Hpl. destruct (interp_fits_inv d nd kids s Hf) as [[Hc Hr] [Hn Hkids]].
   cbn [interp v_fits]. unfold interp_fits.
-  assert (E1 : 1 <=? fst s = true) by lia. rewrite E1, Hn'.
+  assert (E1 : 1 <=? fst s = true) by qlia. rewrite E1, Hn'.
   assert (E2 : match snd s with Some r => 1 <=? r | None => true end = true).
-  { destruct (snd s) as [r|]; [specialize (Hr r eq_refl); lia|reflexivity]. }
+  { destruct (snd s) as [r|]; [specialize (Hr r eq_refl); qlia|reflexivity]. }
   rewrite E2. cbn [andb]. apply forallb_forall. intros q Hq.
   destruct (Hpl q Hq) as [q0 [Hq0 [Ei Es]]]. specialize (Hkids q0 Hq0). rewrite Ei, Es in Hkids.
   unfold nth_view in *. destruct (nthz kids (p_idx q)); [exact Hkids|discriminate Hkids].
@@ -406,9 +433,9 @@ Proof.
   revert i0 w0. induction rs as [|[h c] rs IH]; intros i0 w0 H; [discriminate|]. cbn [pile_find] in H.
   destruct (row <? w0 + h) eqn:E.
   - inversion H; subst. exists [], (h, cs), rs. change (zlen (@nil (Z * size))) with 0. cbn [map zsum fst snd app].
-    repeat split; try lia.
+    repeat split; try qlia.
   - destruct (IH _ _ H) as [pre [x [post [-> [-> [-> [-> Hlt]]]]]]].
-    exists ((h, c) :: pre), x, post. rewrite zlen_cons. cbn [map zsum fst app]. repeat split; try lia.
+    exists ((h, c) :: pre), x, post. rewrite zlen_cons. cbn [map zsum fst app]. repeat split; try qlia.
 Qed.
 
 Section PileTarget.
@@ -429,16 +456,16 @@ Section PileTarget.
     pose proof (Forall_inv Hrest) as Hx. cbn beta in Hx. pose proof (zsum_nonneg pre Hpre) as Hz.
     assert (Hlen : zlen (pile_rows_sizes its s) = zlen its) by (unfold zlen; rewrite pile_rows_sizes_length; reflexivity).
     rewrite E, zlen_app, zlen_cons in Hlen. pose proof (zlen_nonneg pre). pose proof (zlen_nonneg post).
-    split; [lia|]. split; [lia|]. intro fp'. unfold pile_place. rewrite E. split.
+    split; [qlia|]. split; [qlia|]. intro fp'. unfold pile_place. rewrite E. split.
     - pose proof (pile_place_from_in fp' pre x post 0 0 Hpre) as G.
-      replace (0 + zlen pre) with i in G by lia. replace (0 + zsum (map fst pre)) with wrow in G by lia.
-      rewrite Hc. apply G. lia.
+      replace (0 + zlen pre) with i in G by qlia. replace (0 + zsum (map fst pre)) with wrow in G by qlia.
+      rewrite Hc. apply G. qlia.
     - intros q Hq Hqi. rewrite <- E in Hq.
       destruct (pile_place_from_inv fp' _ 0 0 q Hall Hq) as [pre2 [x2 [post2 [E2 ->]]]].
       cbn [p_idx] in Hqi. rewrite E in E2.
       destruct (app_mid_eq pre pre2 x x2 post post2 E2) as [<- [<- <-]].
-      { unfold zlen in *. lia. }
-      rewrite Hc. f_equal; lia.
+      { unfold zlen in *. qlia. }
+      rewrite Hc. f_equal; qlia.
   Qed.
 
   Lemma pile_target : LocalMoveTarget nd (map snd its).
@@ -450,7 +477,7 @@ Section PileTarget.
     inversion E; subst. split; [exact Eh|]. split; [right; auto|].
     destruct (pile_find_placed s row i wrow cs Hf Efind) as [Hi [Hw Hpl]]. destruct (Hpl fp) as [Hin Hfun].
     exists (Placed i 0 wrow cs (fp =? i) false). cbn [p_idx p_size p_y p_isfocus].
-    repeat split; auto; try lia. intro H; discriminate H.
+    repeat split; auto; try qlia. intro H; discriminate H.
   Qed.
 
   Lemma pile_fits_refocus s i : pile_fits its fp s = true -> 0 <= i < zlen its -> pile_fits its i s = true.
@@ -458,7 +485,7 @@ Section PileTarget.
     unfold pile_fits. intros H Hi.
     apply andb_true_iff in H as [H H5]. apply andb_true_iff in H as [H H4].
     apply andb_true_iff in H as [H H3]. apply andb_true_iff in H as [H1 H2].
-    rewrite H1, H4, H5. cbn [andb]. lia.
+    rewrite H1, H4, H5. cbn [andb]. qlia.
   Qed.
 
   Lemma pile_place_refocus s i q :
@@ -469,12 +496,12 @@ Section PileTarget.
     destruct (pile_place_from_inv i _ 0 0 q Hall Hq) as [pre [x [post [E ->]]]].
     rewrite E in Hall. apply Forall_app in Hall as [Hpre Hrest]. pose proof (Forall_inv Hrest) as Hx. cbn beta in Hx.
     exists (Placed (0 + zlen pre) 0 (0 + zsum (map fst pre)) (snd x) (fp =? 0 + zlen pre) false).
-    split; [|split; reflexivity]. rewrite E. apply pile_place_from_in; [exact Hpre|lia].
+    split; [|split; reflexivity]. rewrite E. apply pile_place_from_in; [exact Hpre|qlia].
   Qed.
 End PileTarget.
 
 Lemma zlen_combine_same {A B} (a : list A) (b : list B) : length a = length b -> zlen (combine a b) = zlen a.
-Proof. intro H. unfold zlen. rewrite combine_length. lia. Qed.
+Proof. intro H. unfold zlen. rewrite combine_length. qlia. Qed.
 
 Lemma move_ok_pile items fp : Forall (fun it => MoveOK (snd it)) items -> MoveOK (Pile items fp).
 Proof.
@@ -510,7 +537,7 @@ Proof.
     inversion E; subst i0 cs0 c' r' nf. clear E.
     destruct (pile_find_placed its fp s row i wrow cs Hn Efind) as [Hi [Hw Hpl]].
     destruct (Hpl fp) as [Hp Hfun]. destruct (Hpl i) as [Hp' _].
-    destruct (nthz_some items i) as [[o ci] Hni]; [lia|].
+    destruct (nthz_some items i) as [[o ci] Hni]; [qlia|].
     assert (Ekid : forall d, nth_view d kids i = view ci) by (intro d; unfold kids; apply (nth_view_kids d items i o ci Hni)).
     rewrite Ekid.
     assert (Einfo : nth_info (map snd its) i = v_info (view ci)).
@@ -529,32 +556,32 @@ Proof.
     rewrite view_eq. cbn [interp v_info v_fits v_cursor]. unfold wnode. cbn [kidviews kids_with node_of].
     rewrite kids_set_nth_w, map_fst_set_nth_w. fold kids.
     assert (Ekinfo : map v_info (set_nth_v kids i (view c2)) = map v_info kids).
-    { apply (map_info_set kids i (view c2) (Pile items fp)); [lia|]. rewrite Ekid. exact Hinfo. }
+    { apply (map_info_set kids i (view c2) (Pile items fp)); [qlia|]. rewrite Ekid. exact Hinfo. }
     rewrite Ekinfo. fold its. cbn [n_info].
     split; [reflexivity|]. split.
     + eapply (interp_fits_after (Pile items fp) _ _ _ kids i (view c2) s Hf).
-      * cbn [n_fits]. apply (pile_fits_refocus its fp s i Hn). lia.
+      * cbn [n_fits]. apply (pile_fits_refocus its fp s i Hn). qlia.
       * cbn [n_place]. intros q Hq. apply (pile_place_refocus its fp s i q Hn Hq).
       * cbn [n_place]. intros q Hq Hqi. rewrite (Hfun q Hq Hqi). cbn [p_size]. exact Hfit'.
-      * lia.
+      * qlia.
     + intro Hne. destruct (Hasked Hne) as [_ [Hrow [x Hcur]]].
       split; [|split].
       * unfold pile_info. cbn [i_sel]. apply existsb_exists.
-        destruct (nthz_some its i) as [[o' ci'] Hni']; [lia|]. exists (o', ci'). split; [eapply nthz_In; eauto|].
+        destruct (nthz_some its i) as [[o' ci'] Hni']; [qlia|]. exists (o', ci'). split; [eapply nthz_In; eauto|].
         cbn [snd]. rewrite <- (nth_info_map_snd its i o' ci' Hni'). rewrite Einfo. exact Esel.
       * pose proof (pile_within its fp s _ Hn Hpos Hp) as [_ [_ [Hy0 Hy1]]]. cbn [p_y p_idx p_size n_info] in Hy0, Hy1.
-        rewrite Einfo in Hy1. lia.
+        rewrite Einfo in Hy1. qlia.
       * eapply (interp_cursor_after _ _ (set_nth_v kids i (view c2)) s i cs x (row - wrow) row).
         -- rewrite Ekinfo, <- Eki. apply (pile_cursor_ok its i).
-        -- cbn [n_fits]. apply (pile_fits_refocus its fp s i Hn). lia.
+        -- cbn [n_fits]. apply (pile_fits_refocus its fp s i Hn). qlia.
         -- exact Hpos.
         -- exists (Placed i 0 wrow cs (i =? i) false). cbn [n_place p_isfocus p_idx p_size p_y].
-           split; [exact Hp'|]. repeat split; lia.
-        -- rewrite nth_view_set_same by lia. exact Hcur.
-        -- rewrite nth_view_set_same by lia. rewrite Hinfo. exact Esel.
-        -- rewrite nth_view_set_same by lia. apply hasmove_hascur. unfold info. rewrite Hinfo. exact Ehm.
+           split; [exact Hp'|]. repeat split; qlia.
+        -- rewrite nth_view_set_same by qlia. exact Hcur.
+        -- rewrite nth_view_set_same by qlia. rewrite Hinfo. exact Esel.
+        -- rewrite nth_view_set_same by qlia. apply hasmove_hascur. unfold info. rewrite Hinfo. exact Ehm.
         -- destruct (view_good c2) as [FP _]. destruct (FP cs Hfit') as [H1 _]. exact H1.
-        -- rewrite nth_view_set_same by lia. rewrite Hinfo. lia.
+        -- rewrite nth_view_set_same by qlia. rewrite Hinfo. qlia.
 Qed.
 
 (* ---- Columns ---- *)
@@ -580,8 +607,8 @@ Proof.
     { intros b' r0 Hb. destruct (IH _ _ _ _ _ Hb) as [Hl|[pre [t [post [-> [Hn ->]]]]]]; [left; exact Hl|].
       right. exists ((w, h, c) :: pre), t, post. split; [reflexivity|]. rewrite zlen_cons.
       pose proof (zlen_nonneg pre). split.
-      - rewrite nthz_cons. assert (E1 : 1 + zlen pre =? 0 = false) by lia. assert (E2 : 1 + zlen pre <? 0 = false) by lia.
-        rewrite E1, E2. replace (1 + zlen pre - 1) with (zlen pre) by lia. exact Hn.
+      - rewrite nthz_cons. assert (E1 : 1 + zlen pre =? 0 = false) by qlia. assert (E2 : 1 + zlen pre <? 0 = false) by qlia.
+        rewrite E1, E2. replace (1 + zlen pre - 1) with (zlen pre) by qlia. exact Hn.
       - unfold xoff, cw. cbn [map zsum fst]. peq. }
     destruct b.
     + destruct best as [[[[bi bx] bend] bc]|].
@@ -614,19 +641,19 @@ Section ColumnsTarget.
     pose proof Hw as Hw'. rewrite E in Hw'. apply Forall_app in Hw' as [Hpre Hrest].
     pose proof (Forall_inv Hrest) as Ht. cbn beta in Ht.
     rewrite E, zlen_app, zlen_cons in Hlen. pose proof (zlen_nonneg pre). pose proof (zlen_nonneg post).
-    replace (0 + zlen pre) with (zlen pre) by lia. replace (0 + xoff dc pre) with (xoff dc pre) by lia.
-    split; [lia|]. split; [|split].
+    replace (0 + zlen pre) with (zlen pre) by qlia. replace (0 + xoff dc pre) with (xoff dc pre) by qlia.
+    split; [qlia|]. split; [|split].
     - rewrite nthz_map in Hsel. destruct (nthz items (zlen pre)) as [[[o b] ci]|] eqn:Ei; [|discriminate].
       cbn [option_map snd] in Hsel. rewrite (nth_info_map_snd items _ _ _ Ei). congruence.
     - unfold columns_place. rewrite E.
       pose proof (columns_place_from_in fp dc pre t post 0 0 _ eq_refl Hpre Ht) as G.
-      replace (0 + zlen pre) with (zlen pre) in G by lia. replace (0 + xoff dc pre) with (xoff dc pre) in G by lia. exact G.
+      replace (0 + zlen pre) with (zlen pre) in G by qlia. replace (0 + xoff dc pre) with (xoff dc pre) in G by qlia. exact G.
     - intros q Hq Hqi. unfold columns_place in Hq.
       destruct (columns_place_from_inv fp dc _ 0 0 _ q eq_refl Hw Hq) as [pre2 [t2 [post2 [E2 ->]]]].
       cbn [p_idx] in Hqi. rewrite E in E2.
       destruct (app_mid_eq pre pre2 t t2 post post2 E2) as [<- [<- <-]].
-      { unfold zlen in *. lia. }
-      f_equal; lia.
+      { unfold zlen in *. qlia. }
+      f_equal; qlia.
   Qed.
 End ColumnsTarget.
 
@@ -650,7 +677,7 @@ Proof.
     destruct (i_hasmove _) in E; discriminate.
   - (* the chosen column has no move_cursor_to_coords: only the focus moves (here: stays) *)
     intros _ Hsame. cbn [set_focus cols_same] in Hsame |- *. apply andb_true_iff in Hsame as [Hfp _].
-    assert (i = fp) by lia. subst i.
+    assert (i = fp) by qlia. subst i.
     rewrite view_eq. cbn [interp v_info v_fits]. unfold wnode. cbn [kidviews kids_with node_of].
     fold kids. fold its. cbn [n_info].
     split; [reflexivity|]. split; [exact Hf|intro H; congruence].
@@ -660,7 +687,7 @@ Proof.
     destruct (i_hasmove (nth_info (map snd its) i0)) eqn:Ehm; [|discriminate].
     inversion E; subst i0 cs0 c' r' nf. clear E.
     destruct (columns_best_placed its fp dc mw s col i x0 e0 cs Hn Ebest) as [Hi [Esel [Hp Hfun]]].
-    destruct (nthz_some items i) as [[o ci] Hni]; [lia|].
+    destruct (nthz_some items i) as [[o ci] Hni]; [qlia|].
     assert (Ekid : forall d, nth_view d kids i = view ci) by (intro d; unfold kids; apply (nth_view_kids d items i o ci Hni)).
     rewrite Ekid.
     assert (Einfo : nth_info (map snd its) i = v_info (view ci)).
@@ -676,38 +703,38 @@ Proof.
     intros _ Hsame. cbn [set_child set_focus] in *.
     set (c2 := m_w (v_move (view ci) cs (Z.min (Z.max 0 (col - x0)) (e0 - x0 - 1)) row)) in *.
     cbn [cols_same] in Hsame. apply andb_true_iff in Hsame as [Hfp Hsame].
-    assert (i = fp) by lia. subst i.
+    assert (i = fp) by qlia. subst i.
     pose proof (cols_same_cols_nth items fp ci c2 o Hsame Hni) as Hsame'.
     destruct (IHi eq_refl Hsame') as [Hinfo [Hfit' Hasked]]. clear IHi.
     rewrite view_eq. cbn [interp v_info v_fits v_cursor]. unfold wnode. cbn [kidviews kids_with node_of].
     rewrite kids_set_nth_w, map_fst_set_nth_w. fold kids.
     assert (Ekinfo : map v_info (set_nth_v kids fp (view c2)) = map v_info kids).
-    { apply (map_info_set kids fp (view c2) (Columns items fp dc mw)); [lia|]. rewrite Ekid. exact Hinfo. }
+    { apply (map_info_set kids fp (view c2) (Columns items fp dc mw)); [qlia|]. rewrite Ekid. exact Hinfo. }
     rewrite Ekinfo. fold its. cbn [n_info].
     split; [reflexivity|]. split.
     + eapply (interp_fits_after (Columns items fp dc mw) _ _ _ kids fp (view c2) s Hf).
       * cbn [n_fits]. exact Hn.
       * cbn [n_place]. intros q Hq. exists q. auto.
       * cbn [n_place]. intros q Hq Hqi. rewrite (Hfun q Hq Hqi). cbn [p_size]. exact Hfit'.
-      * lia.
+      * qlia.
     + intro Hne. destruct (Hasked Hne) as [_ [Hrow [x Hcur]]].
       split; [|split].
       * unfold columns_info. cbn [i_sel]. apply existsb_exists.
-        destruct (nthz_some its fp) as [[o' ci'] Hni']; [lia|]. exists (o', ci'). split; [eapply nthz_In; eauto|].
+        destruct (nthz_some its fp) as [[o' ci'] Hni']; [qlia|]. exists (o', ci'). split; [eapply nthz_In; eauto|].
         cbn [snd]. rewrite <- (nth_info_map_snd its fp o' ci' Hni'). rewrite Einfo. exact Esel.
       * pose proof (columns_within its fp dc mw s _ Hn Hpos Hp) as [_ [_ [Hy0 Hy1]]]. cbn [p_y p_idx p_size n_info] in Hy0, Hy1.
-        rewrite Einfo in Hy1. lia.
+        rewrite Einfo in Hy1. qlia.
       * eapply (interp_cursor_after _ _ (set_nth_v kids fp (view c2)) s fp cs x row row).
         -- rewrite Ekinfo, <- Eki. apply (columns_cursor_ok its fp dc mw).
         -- cbn [n_fits]. exact Hn.
         -- exact Hpos.
         -- exists (Placed fp x0 0 cs (fp =? fp) false). cbn [n_place p_isfocus p_idx p_size p_y].
-           split; [exact Hp|]. repeat split; lia.
-        -- rewrite nth_view_set_same by lia. exact Hcur.
-        -- rewrite nth_view_set_same by lia. rewrite Hinfo. exact Esel.
-        -- rewrite nth_view_set_same by lia. apply hasmove_hascur. unfold info. rewrite Hinfo. exact Ehm.
+           split; [exact Hp|]. repeat split; qlia.
+        -- rewrite nth_view_set_same by qlia. exact Hcur.
+        -- rewrite nth_view_set_same by qlia. rewrite Hinfo. exact Esel.
+        -- rewrite nth_view_set_same by qlia. apply hasmove_hascur. unfold info. rewrite Hinfo. exact Ehm.
         -- destruct (view_good c2) as [FP _]. destruct (FP cs Hfit') as [H1 _]. exact H1.
-        -- rewrite nth_view_set_same by lia. rewrite Hinfo. lia.
+        -- rewrite nth_view_set_same by qlia. rewrite Hinfo. qlia.
 Qed.
 
 (* ---- every widget ---- *)
